@@ -93,11 +93,11 @@ class CellParser(MCNP_Parser):
         nodes = {"left": left, "operator": p.padding, "right": right}
         return syntax_node.GeometryTree("intersection", nodes, "*", left, right)
 
-    # handle implicit intersection of: ( )( )
-    @_("geometry_term geometry_factory")
+    # handle implicit intersection of: ( )( ) and ( )#n
+    @_("geometry_term geometry_factor")
     def geometry_term(self, p):
         left = p.geometry_term
-        right = p.geometry_factory
+        right = p.geometry_factor
         nodes = {"left": left, "operator": syntax_node.PaddingNode(), "right": right}
         return syntax_node.GeometryTree("intersection", nodes, "*", left, right)
 
